@@ -8,6 +8,7 @@ import (
 	"bytes"
 	"encoding/json"
 	"fmt"
+	"runtime/debug"
 	"sort"
 	"strings"
 	"time"
@@ -124,13 +125,50 @@ func Run(prop string, seed uint64, tier, replay string) *Result {
 	func() {
 		defer func() {
 			if r := recover(); r != nil {
-				res.Error = fmt.Sprintf("oracle panicked: %v", r)
+				stack := string(debug.Stack())
+				fn := topLibraryFrame(stack)
+				if prop == "C06" && fn != "" {
+					// the library panicked while the oracle (or its generator) was driving it through the public API:
+					// that is the violation C06 speaks about, with the stack as the observation
+					res.Failures = append(res.Failures, Failure{Signature: "C06/panic/" + fn + "/outside-guarded-call",
+						What:     "the library panicked while the oracle was building or driving an input (outside the calls the oracle guards itself)",
+						Input:    "generator-built input of this seed; see the stack in observed",
+						Observed: fmt.Sprintf("panic: %v\n%s", r, trimStack(stack)), Required: "no panic", Seed: seed})
+					return
+				}
+				res.Error = fmt.Sprintf("oracle panicked: %v\n%s", r, trimStack(stack))
 			}
 		}()
 		o.Run(t)
 	}()
 	res.WallS = time.Since(start).Seconds()
 	return res
+}
+
+// topLibraryFrame returns the innermost function of github.com/moov-io/ach on a panic stack ("" if none).
+func topLibraryFrame(stack string) string {
+	for _, l := range strings.Split(stack, "\n") {
+		l = strings.TrimSpace(l)
+		if strings.HasPrefix(l, "github.com/moov-io/ach") && !strings.Contains(l, "Verif") {
+			name := l
+			if i := strings.LastIndex(name, "("); i > 0 {
+				name = name[:i]
+			}
+			name = strings.TrimPrefix(name, "github.com/moov-io/ach")
+			name = strings.TrimLeft(name, "./")
+			name = strings.NewReplacer("(*", "", ")", "", "/", ".").Replace(name)
+			return name
+		}
+	}
+	return ""
+}
+
+func trimStack(stack string) string {
+	ls := strings.Split(stack, "\n")
+	if len(ls) > 40 {
+		ls = ls[:40]
+	}
+	return strings.Join(ls, "\n")
 }
 
 // FileInput renders a file for a replay: description plus its NACHA text
